@@ -208,41 +208,37 @@ theorem serialRead_sound (bus : List SDev) (s a : Nat) (h : serialRead bus s = s
     rw [List.mem_filter] at this
     exact ⟨d, this.1, by simpa using this.2, h⟩
 
-/-- The serial-number write changes only devices with the requested serial, and reports success exactly when
-such a device exists (it then answers the verification read from the new address). -/
+/-- The serial-number write changes only the address of devices with the requested serial (those that obey),
+leaves every device with another serial alone, and reports success exactly when the first device answering the
+verification read for that serial sits at the new address. -/
 theorem serialWrite_spec (bus : List SDev) (s a : Nat) :
-    ((serialWrite bus s a).1 = .ok ↔ ∃ d ∈ bus, d.serial = s) ∧
-    (serialWrite bus s a).2 = bus.map (fun d => if d.serial = s then { d with addr := a } else d) ∧
-    ∀ d ∈ bus, d.serial ≠ s → d ∈ (serialWrite bus s a).2 := by
-  have hread : serialRead (serialWriteBus bus s a) s = if (∃ d ∈ bus, d.serial = s) then some a else none := by
-    rw [serialRead_eq]
-    unfold serialWriteBus
-    induction bus with
-    | nil => simp
-    | cons d ds ih =>
-      by_cases hs : d.serial = s
-      · simp [hs]
-      · simp only [List.map_cons, hs, if_false, List.filter_cons, decide_false, Bool.false_eq_true]
-        rw [ih]
-        simp [hs]
-  refine ⟨?_, ?_, ?_⟩
-  · unfold serialWrite
-    simp only [hread]
-    by_cases hex : ∃ d ∈ bus, d.serial = s
-    · simp [hex]
-    · simp [hex]
-  · unfold serialWrite
-    simp only [hread]
-    by_cases hex : ∃ d ∈ bus, d.serial = s <;> simp [hex, serialWriteBus]
+    (serialWrite bus s a).2 = bus.map (fun d => if d.serial = s ∧ d.obeys then { d with addr := a } else d) ∧
+    (∀ d ∈ bus, d.serial ≠ s → d ∈ (serialWrite bus s a).2) ∧
+    ((serialWrite bus s a).1 = .ok ↔
+      ∃ d, ((serialWrite bus s a).2.filter fun d => d.serial = s).head? = some d ∧ d.addr = a) := by
+  have hbus : (serialWrite bus s a).2 = serialWriteBus bus s a := by
+    unfold serialWrite
+    simp only
+    split
+    · rfl
+    · split <;> rfl
+  refine ⟨by rw [hbus]; rfl, ?_, ?_⟩
   · intro d hd hs
-    have : (serialWrite bus s a).2 = serialWriteBus bus s a := by
-      unfold serialWrite
-      simp only [hread]
-      by_cases hex : ∃ d ∈ bus, d.serial = s <;> simp [hex]
-    rw [this]
+    rw [hbus]
     unfold serialWriteBus
     rw [List.mem_map]
     exact ⟨d, hd, by simp [hs]⟩
+  · rw [hbus]
+    unfold serialWrite
+    simp only
+    rw [serialRead_eq]
+    cases hh : ((serialWriteBus bus s a).filter fun d => d.serial = s).head? with
+    | none => simp
+    | some d =>
+      simp only [Option.map_some]
+      by_cases hda : d.addr = a
+      · simp [hda]
+      · simp [hda]
 
 /-! ### (6) two-step authorization -/
 
@@ -267,7 +263,8 @@ example : (addrWrite [⟨1, true, .answers⟩, ⟨0, false, .silent⟩]).bus = [
 example : Tel.bWrite target ∉ (addrWrite [⟨1, true, .answers⟩, ⟨0, false, .refuses⟩]).tels := by decide
 example : progAddrs [⟨0, true, .answers⟩, ⟨1, false, .answers⟩] = [target] ∧
     0 < countAt [⟨0, true, .answers⟩, ⟨1, false, .answers⟩] target .answers := by decide
-example : serialRead [⟨1, 2, true⟩, ⟨0, 1, false⟩] 1 = some 0 := by decide
+example : serialRead [⟨1, 2, true, true⟩, ⟨0, 1, false, true⟩] 1 = some 0 := by decide
+example : (serialWrite [⟨1, 2, true, true⟩, ⟨1, 1, false, false⟩] 1 0).1 = .err := by decide
 example : authorize2 3 1 3 = (1, 2) ∧ authorize2 1 3 1 = (1, 3) := by decide
 
 end XknxVerif.Props.C44
